@@ -283,6 +283,19 @@ func bloomReload(c *Ctx, f *gostatix.BloomFilter, cfg bloomCfg) *gostatix.BloomF
 	}
 	g.Insert([]byte("previous tenant"))
 	g.Lookup([]byte("previous tenant"))
+	if g.GetCap() <= 1024 && c.rng.Intn(2) == 0 {
+		// the previous tenant was saturated: every bit set (whatever the handle remembers about
+		// its fill level is stale after the load)
+		for i := 0; i < 40*int(g.GetCap()); i++ {
+			if a, err := bloomAbs(g, cfg.redis); err != nil || uint64(len(a.Bits)) >= a.Size {
+				break
+			}
+			for j := 0; j < 1+int(g.GetCap())/8; j++ {
+				g.Insert(randBytes(c.rng, 1+c.rng.Intn(12)))
+			}
+		}
+		c.branch("reload-into-saturated")
+	}
 	var lerr error
 	how := "Import"
 	res := safely(func() {
